@@ -42,8 +42,7 @@ def skipWsLoop : Nat → LX → LX
   | 0, l => l
   | fuel+1, l => if Gen.isWhitespace l.ch then skipWsLoop fuel l.readChar else l
 
-def skipWhitespace (l : LX) : LX :=
-  if l.rp ≥ l.input.size then l.readChar else skipWsLoop (l.input.size + 2) l
+def skipWhitespace (l : LX) : LX := skipWsLoop (l.input.size + 2) l
 
 def readWhile (p : UInt8 → Bool) : Nat → LX → LX
   | 0, l => l
